@@ -1098,9 +1098,14 @@ def curve_deriv_cpts(dim, degree, kv, cpts, rs, deriv_order=0):
     for k in range(1, deriv_order + 1):
         tmp = degree - k + 1
         for i in range(0, r - k + 1):
-            PK[k][i][:] = [tmp * (elem1 - elem2) /
-                           (kv[rs[0] + i + degree + 1] - kv[rs[0] + i + k]) for elem1, elem2
-                           in zip(PK[k - 1][i + 1], PK[k - 1][i])]
+            den = kv[rs[0] + i + degree + 1] - kv[rs[0] + i + k]
+            if den == 0:
+                # A knot of multiplicity degree - k + 2 or more (e.g. a C0 knot and k = 2): the basis function of the
+                # k-th derivative curve that belongs to this control point has an empty support, so the point never
+                # contributes; use the 0/0 = 0 convention of the basis function recursion instead of dividing by zero
+                PK[k][i][:] = [0.0 for _ in range(dim)]
+            else:
+                PK[k][i][:] = [tmp * (elem1 - elem2) / den for elem1, elem2 in zip(PK[k - 1][i + 1], PK[k - 1][i])]
 
     # Return control points (as a 2-dimensional list of points)
     return PK
